@@ -12,11 +12,13 @@ import (
 	"encoding/binary"
 	"fmt"
 	"os"
+	"os/signal"
 	"path/filepath"
 	"runtime"
 	"strings"
 	"sync"
 	"sync/atomic"
+	"syscall"
 
 	"github.com/massnetorg/mass-core/logging"
 	"github.com/massnetorg/mass-core/poc/pocutil"
@@ -140,7 +142,31 @@ const (
 	pGo pAction = iota
 	pStop
 	pCrash
+	// storage fault: the file system refuses to grow the plot file (as a full disk, a quota or a file size limit
+	// does) from the next write on / a few bytes into the next write; only meaningful at A.computed / B.computed,
+	// i.e. right before a window is flushed
+	pFull0
+	pFullPart
 )
+
+var pSigOnce sync.Once
+
+// pLimitFileSize lowers RLIMIT_FSIZE of this (single-job) process; the returned func restores it.
+func pLimitFileSize(limit int64) func() {
+	pSigOnce.Do(func() { signal.Ignore(syscall.SIGXFSZ) })
+	var old syscall.Rlimit
+	if err := syscall.Getrlimit(syscall.RLIMIT_FSIZE, &old); err != nil {
+		vk.Fatalf("getrlimit: %v", err)
+	}
+	if err := syscall.Setrlimit(syscall.RLIMIT_FSIZE, &syscall.Rlimit{Cur: uint64(limit), Max: old.Max}); err != nil {
+		vk.Fatalf("setrlimit: %v", err)
+	}
+	return func() {
+		if err := syscall.Setrlimit(syscall.RLIMIT_FSIZE, &old); err != nil {
+			vk.Fatalf("restore rlimit: %v", err)
+		}
+	}
+}
 
 type pRun struct {
 	dir     string
@@ -159,6 +185,8 @@ type pRun struct {
 	livelock    bool
 	crashedAt   int
 	stoppedAt   int
+	faultAt     int
+	unlimit     func()
 	snapA       []byte // map A file content at before.removeA
 	lastSyncedA []byte
 	lastSyncedB []byte
@@ -242,6 +270,23 @@ func pInstallHooks() {
 					mdb.StopPlot()
 					<-mdb.stopPlotCh // closed by StopPlot's goroutine: the next poll sees it deterministically
 				}
+			case pFull0, pFullPart:
+				if run.faultAt == 0 && strings.HasSuffix(name, ".computed") {
+					run.faultAt = n
+					path := mdb.filePathA
+					if strings.HasPrefix(name, "B.") {
+						path = mdb.filePathB
+					}
+					st, err := os.Stat(path)
+					if err != nil {
+						vk.Fatalf("stat %s: %v", path, err)
+					}
+					lim := st.Size()
+					if run.at(n, name) == pFullPart {
+						lim += 5
+					}
+					run.unlimit = pLimitFileSize(lim)
+				}
 			case pCrash:
 				run.crashedAt = n
 				run.curA = pReadFile(mdb.filePathA)
@@ -281,6 +326,10 @@ func (run *pRun) start() error {
 	}()
 	err = <-mdb.Plot()
 	mdb.wg.Wait()
+	if run.unlimit != nil {
+		run.unlimit()
+		run.unlimit = nil
+	}
 	return err
 }
 
